@@ -21,6 +21,7 @@ from vlib.core import VERIF
 from vlib.build import BuildError
 from tools.gen import callgraph as cgm
 from tools.gen import cgstack as csm
+from tools.gen import cgguard as cgg
 from tools.gen.csrc import ExtractError
 
 SWEEP = os.path.join(VERIF, "harness/C19/sweep.janet")
@@ -323,8 +324,39 @@ def run(ctx, only=None):
         ctx.violation("build-failed", {"kind": "build", "error": str(e)}, found=False, what="tree does not build")
         return ctx.finish("proof", {"evaluations": 0, "distinct_nontrivial": 0})
     # (A) regenerate ------------------------------------------------------------------------------------------
+    cs = None
     try:
         g = cgm.extract(ctx.build)
+        # (A1) guards are PROPOSED by source idiom and must be borne out by a control-flow certificate from the IR
+        # (tools/gen/cgguard.py -> Gen/DepthGuard.lean, obligations cg_guards_certified / cg_exemptions_certified); a
+        # proposal without certificate is withdrawn (it may still be a written exemption, else its cycle is unguarded)
+        try:
+            cs = cgg.extract(ctx.build, g)
+            deny = sorted(n for n, _ in cs.uncertified if n not in cgg.CHECKERS)
+            if deny:
+                for nm, why in cs.uncertified:
+                    ctx.say("guard idiom matched in %s but the IR has no depth test dominating its recursive calls: %s" % (nm, why[:300]))
+                g = cgm.extract(ctx.build, deny=deny)
+                cs = cgg.extract(ctx.build, g)
+                for nm in deny:
+                    ctx.say("  -> %s: %s" % (nm, "covered by the written exemption (" + g.bounded[nm][:80] + "...)" if nm in g.bounded else "NOT a guard any more"))
+            for nm, why in cs.uncertified:
+                broken.append("no guard certificate for %s: %s [theorem cg_guards_certified]" % (nm, why[:300]))
+                ctx.broken.append(broken[-1])
+                ctx.say(broken[-1])
+            for e in cs.exempt:
+                for f in e["fails"]:
+                    broken.append("exemption %s no longer borne out by the IR: %s [theorem cg_exemptions_certified]" % (e["name"], f[:300]))
+                    ctx.broken.append(broken[-1])
+                    ctx.say(broken[-1])
+            ctx.gen("DepthGuard.lean", cgg.render(cs, g))
+            ctx.say("guard certificates: %d functions certified on the IR CFG (%d blocks, %d edges, %d checks, %d recursive-call blocks), "
+                    "withdrawn: %s" % (len(cs.certs), sum(c["n"] for c in cs.certs), sum(len(c["cfg"]) for c in cs.certs),
+                                       sum(len(c["checks"]) for c in cs.certs), sum(len(c["targets"]) for c in cs.certs), g.denied))
+        except ExtractError as e:
+            broken.append("translator tools/gen/cgguard.py: %s" % e)
+            ctx.broken.append(broken[-1])
+            ctx.say(broken[-1])
         ctx.gen("Depth.lean", cgm.render(g))
         for nm, err in g.exemption_failures:
             ctx.say("exemption no longer valid: %s: %s" % (nm, err))
@@ -531,6 +563,12 @@ def run(ctx, only=None):
                                              "max_head": st.max_head, "inlined_everywhere": len(st.inlined), "dynamic_unbounded": st.unbounded,
                                              "reentry_sites": st.sites + [("gc->funcdef", "janet_mark_funcdef", st.funcdef_charged)],
                                              "variants": list(csm.SU_VARIANTS), "unrolled": st.unrolled, "pure_checkers": st.demoted},
+        "guard_certificates": None if not cs else {
+            "certified": [{"fn": c["fn"], "kind": c["kind"], "counter": c["counter"], "charge": c["charge"], "compare": "%s %d" % (c["pred"], c["k"]),
+                           "blocks": c["n"], "edges": len(c["cfg"]), "checks": len(c["checks"]), "recursive_call_blocks": len(c["targets"]),
+                           "inits": c["inits"], "stops": c["stopcallees"]} for c in cs.certs],
+            "idiom_matched_but_not_certified": g.denied, "never_returning_without_attribute": [c["fn"] for c in cs.noreturn_used],
+            "exemptions": [{"name": e["name"], "callers": e.get("callers"), "writers": e.get("writers"), "certs": [c["fn"] for c in e["certs"]], "fails": e["fails"]} for e in cs.exempt]},
         "counter_balance": None if not g else {"path_classes": len(g.balance), "unbalanced": g.unbalanced,
                                                "functions": sorted(set(pth[1] for pth in g.balance))},
         "depth_argument_charging": None if not g else {"functions": g.deptharg["fns"], "non_charging_edges": g.deptharg["zero"],
@@ -543,7 +581,7 @@ def run(ctx, only=None):
     return ctx.finish("proof", cov, assumptions=[
         "LLVM IR at -O0 is a faithful account of the C call structure; indirect calls over-approximated by same-type address-taken functions",
         "edges into the non-returning janet_panic*/janet_signalv family are cut; exemption list in tools/gen/callgraph.py",
-        "guard marks come from source idioms (that the guard is decremented/checked on the recursive path is tested by the sweep, not proved)",
+        "guard marks are proposed by source idiom and accepted only with a control-flow certificate read from the -O0 LLVM IR (compare of the counter location with a constant whose pass edge every path to a recursive call takes; Lean-checked); trusted there: the IR text parser of tools/gen/cgguard.py (blocks, successors, operand provenance of the compare, which blocks call into the SCC). That the counter is charged on every path is the balance / depth-argument obligations (source text) and the sweep",
         "native stack budget: frame sizes are gcc -fstack-usage figures for the plain (-O1) and nohooks (-O2) flags; functions outside call cycles occur at most once per chain (translator's SCC analysis); libc internals covered by a 64 KiB allowance; per-class counts of live guard frames are hypotheses of stack_bytes_bounded (pool classes: Nest model; marsh / funcdef-nesting: one live counter instance assumed); verdict of the sweep at the default 8 MB stack, 1 MB informational",
         "janet-level recursion is bounded by the fiber's maxstack (default 2^31-1 slots = 16 GiB of heap): cyclic inputs to freeze/thaw/deep= are run in a fiber limited to 2^22 slots",
     ])
